@@ -102,7 +102,7 @@ def run(module, cfg, workers=16, timeout=600, env=None, extra_modules=None, args
         _stage(d, extra_modules)
         with open(os.path.join(d, module + ".cfg"), "w") as fh:
             fh.write(cfg_text(cfg))
-        cmd = ["java", "-XX:+UseParallelGC", "-Xmx8g"]
+        cmd = ["java", "-XX:+UseParallelGC", "-Xmx8g", "-Xss256m"]
         if dfs:
             cmd.append("-Dtlc2.tool.queue.IStateQueue=StateDeque")
         cmd += ["-cp", JAR, "tlc2.TLC", "-workers", str(workers), "-metadir", os.path.join(d, "meta"),
